@@ -434,6 +434,43 @@ ASSUMPTIONS = ['INTEGER context arithmetic is exact for the index range', 'gensy
 
 REDUCE_HOISTER = Hoister(REDUCE, '_ReduceFusionInstance', 'the fused reduction loop')
 
+
+# ----------------------------------------------------------------------
+# X1 shadowing: a comprehension target shadows through nested tuple patterns too
+
+def x1_shadowing_names(ctx: Ctx):
+    """When a zip / enumerate target is replaced by an indexed read, an inner comprehension that re-binds the same name
+    must keep its own variable.  `_binding_names` says which names a target binds; it is evaluated on nested patterns."""
+    from ..minipy import Interp, Obj
+    fn = ctx.fn(ITER, '_binding_names')
+    funcs = {s.name: s for s in ctx.repo.module(ITER).tree.body if isinstance(s, ast.FunctionDef)}
+
+    def name(n):
+        return Obj('NamedId', base=n)
+
+    def tup(*elts):
+        return Obj('TupleBinding', elts=list(elts))
+    under = Obj('UnderscoreId')
+    a, b, c, d = name('a'), name('b'), name('c'), name('d')
+    cases = [
+        ('a', a, ['a']), ('_', under, []), ('(a, b)', tup(a, b), ['a', 'b']), ('((a, c), d)', tup(tup(a, c), d), ['a', 'c', 'd']),
+        ('(a, (_, (b, c)))', tup(a, tup(under, tup(b, c))), ['a', 'b', 'c']), ('(_, _)', tup(under, under), []),
+    ]
+    bad = None
+    for txt, target, want in cases:
+        got = Interp(funcs).call_function(fn, [target])
+        names = [x.fields['base'] for x in got]
+        if names != want and bad is None:
+            bad = f'target `{txt}` binds {want}, the helper reports {names}'
+    ctx.check(bad is None, ITER, fn, '_binding_names', 'every name a target binds is reported, through nested tuple patterns, underscores excluded',
+              (bad or '') + ': an inner comprehension re-binding a substituted name through a nested pattern would have its own variable replaced by the outer indexed read')
+    sn = ctx.fn(ITER, 'SubstNames._visit_list_comp')
+    t = norm(sn, 4000)
+    ok = 'for name in _binding_names(target): if name in self._subst: shadowed[name] = self._subst.pop(name)' in t and 'finally: self._subst.update(shadowed)' in t
+    ctx.check(ok, ITER, sn, 'SubstNames._visit_list_comp', 'a comprehension disables the substitution of every name its targets bind, and restores it afterwards', 'changed')
+    sv = ctx.fn(ITER, 'SubstNames._visit_var')
+    ctx.check('replacement = self._subst.get(e.name)' in norm(sv, 2000), ITER, sv, 'SubstNames._visit_var', 'a variable is replaced only through the substitution map', 'changed')
+
 RULES = [
     Rule('C08.F1', 'synthesised index arithmetic is emitted under the exact integer context', f1_index_arithmetic, 6, 'F'),
     Rule('C08.F1b', 'element reads index with a bare variable or literal', f1b_reads_index_exact, 5, 'F'),
@@ -444,11 +481,15 @@ RULES = [
     Rule('C08.T1', 'reduce fusion keeps identity, operator, and binds the element before combining', t1_reduce_fusion, 8, 'T'),
     Rule('C08.S1', 'ReduceFusion hoists nothing out of conditionally or repeatedly evaluated positions', hoist_mask_rule([REDUCE_HOISTER], 'C08.S1'), 8, 'S,X'),
     Rule('C08.W1', 'while unroll: condition re-tested before every body copy', w1_while_unroll, 2, 'P'),
+    Rule('C08.X1', 'iterator elimination respects shadowing: every name a comprehension target binds (nested patterns included) keeps its own variable', x1_shadowing_names, 3, 'X'),
 ]
 
 from ..selftest import Mutant  # noqa: E402
 
 MUTANTS = [
+    Mutant('shadowing-misses-nested-patterns', ITER, "            out: list[NamedId] = []\n            for elt in target.elts:\n                out.extend(_binding_names(elt))\n            return out",
+           "            return [elt for elt in target.elts if isinstance(elt, NamedId)]", 'C08.X1', 'seeded change C08b'),
+    Mutant('shadowing-never-restored', ITER, "        finally:\n            self._subst.update(shadowed)", "        finally:\n            pass", 'C08.X1'),
     Mutant('offsets-under-ambient-ctx', FOR_UNROLL, 'main_body: list[Stmt] = [integer_ctx(offset_defs, loc)] if offset_defs else []', 'main_body: list[Stmt] = list(offset_defs)', 'C08.F1'),
     Mutant('peel-bound-under-ambient-ctx', FOR_UNROLL, "            emitted.append(integer_ctx([\n                _assign(n, _len(_var(t))),\n                _assign(m, _sub(_var(n), _fmod(_var(n), _int(k)))),\n            ], stmt.loc))",
            "            emitted.extend([\n                _assign(n, _len(_var(t))),\n                _assign(m, _sub(_var(n), _fmod(_var(n), _int(k)))),\n            ])", 'C08.F1'),
